@@ -49,7 +49,8 @@ def main():
     sh(["cargo", "build", "--release", "--offline"], cwd=os.path.join(ROOT, "harness"))
     d = os.path.join(ROOT, "seeded", sid)
     os.makedirs(d, exist_ok=True)
-    shutil.copyfile(patch, os.path.join(d, "patch.diff"))
+    if os.path.abspath(patch) != os.path.abspath(os.path.join(d, "patch.diff")):
+        shutil.copyfile(patch, os.path.join(d, "patch.diff"))
     meta = json.load(open(meta_path)) if os.path.exists(meta_path) else {}
     old = {}
     if os.path.exists(os.path.join(d, "meta.json")):
